@@ -386,21 +386,23 @@ impl Variant {
     }
 
     pub fn and(self, other: Self) -> Result<Self, VariantError> {
-        match self {
-            Self::VInteger(a) => match other {
-                Self::VInteger(b) => Ok(Self::VInteger(qb_and(a, b))),
-                _ => Err(VariantError::TypeMismatch),
-            },
+        match (self, other) {
+            (Self::VInteger(a), Self::VInteger(b)) => Ok(Self::VInteger(qb_and(a, b))),
+            // operands wider than INTEGER work on the 32 bits of a LONG
+            (Self::VInteger(a), Self::VLong(b)) => Ok(Self::VLong((a as i64) & b)),
+            (Self::VLong(a), Self::VInteger(b)) => Ok(Self::VLong(a & (b as i64))),
+            (Self::VLong(a), Self::VLong(b)) => Ok(Self::VLong(a & b)),
             _ => Err(VariantError::TypeMismatch),
         }
     }
 
     pub fn or(self, other: Self) -> Result<Self, VariantError> {
-        match self {
-            Self::VInteger(a) => match other {
-                Self::VInteger(b) => Ok(Self::VInteger(qb_or(a, b))),
-                _ => Err(VariantError::TypeMismatch),
-            },
+        match (self, other) {
+            (Self::VInteger(a), Self::VInteger(b)) => Ok(Self::VInteger(qb_or(a, b))),
+            // operands wider than INTEGER work on the 32 bits of a LONG
+            (Self::VInteger(a), Self::VLong(b)) => Ok(Self::VLong((a as i64) | b)),
+            (Self::VLong(a), Self::VInteger(b)) => Ok(Self::VLong(a | (b as i64))),
+            (Self::VLong(a), Self::VLong(b)) => Ok(Self::VLong(a | b)),
             _ => Err(VariantError::TypeMismatch),
         }
     }
